@@ -382,7 +382,7 @@ func decode(x *mon.Ctx) {
 				v := add(ec.P, bi(int64(c.R.Range(-2000, 2000))))
 				copy(b[1:], v.FillBytes(make([]byte, 32)))
 			case 7: // short x
-				for t := 1; t < 1+c.R.Range(1, 31); t++ {
+				for t, nz := 1, c.R.Range(1, 31); t <= nz; t++ {
 					b[t] = 0
 				}
 			}
